@@ -84,6 +84,7 @@ func (c *scannerClass_) Make(
 		runes_:    []rune(source),
 		tokens_:   tokens,
 	}
+	verifSpawn()
 	go scanner.scanTokens() // Start scanning tokens in the background.
 	return scanner
 }
@@ -207,6 +208,7 @@ func (v *scanner_) indexOfLastEOL(runes []rune) int {
 }
 
 func (v *scanner_) scanTokens() {
+	defer verifEnd()
 loop:
 	for v.next_ < len(v.runes_) {
 		switch {
